@@ -201,6 +201,23 @@ OPS = {
     "form-parameter-repeated": [M("pair", lambda s: (rename(s, "Potential-Form", "g(r, a, b)", "g(r, a, a)"), setv(s, "Potential-Form", "g(r, a, a)", "f(r, a) * a + pymath.sqrt(r)"))),
                                 M("eam", lambda s: (rename(s, "Potential-Form", "f(r,a)", "f(r,r)"), setv(s, "Potential-Form", "f(r,r)", "r + 1"))),
                                 M("pair", lambda s: (rename(s, "Potential-Form", "g(r, a, b)", "g(r, a, b, a)"), setv(s, "Potential-Form", "g(r, a, b, a)", "f(r, a) * b"), setv(s, "Pair", "Al-Cu", ">0 f 2.0 >=1.5 sum(g 1.0 2.0 3.0, tf)")))],
+    # the expression library has functions and keywords of its own (in any case): a form of that name is never what a formula calls
+    "form-named-like-expression-builtin": [M("pair", lambda s: sec(s, "Potential-Form")[1].append(["pow(x, y)", "7"])), M("pair", lambda s: sec(s, "Potential-Form")[1].append(["Exp(r)", "r"])),
+                                           M("eam", lambda s: s.append(["Table-Form:not", [["x", "0.0 1.0 2.0 3.0 4.0"], ["y", "0.0 1.0 4.0 9.0 16.0"]]])), M("pair", lambda s: sec(s, "Potential-Form")[1].append(["mod(p, q)", "p"])),
+                                           M("pair", lambda s: s.append(["Table-Form:pymath.Floor", [["x", "0.0 1.0 2.0 3.0 4.0"], ["y", "0.0 1.0 4.0 9.0 16.0"]]]))],
+    # a formula nothing uses is part of the model all the same
+    "formula-unused-malformed": [M("pair", lambda s: sec(s, "Potential-Form")[1].append(["unused(r, a)", "a*r + + * 1"])), M("eam", lambda s: sec(s, "Potential-Form")[1].append(["unused(r)", "nosuch(r) + 1"])),
+                                 M("pair", lambda s: (sec(s, "Potential-Form")[1].append(["late(r, a)", "a*(r + 1"]), setv(s, "Pair", "Al-Al", "as.buck 1000.0 0.3 32.0 >100 late 1")))],
+    "label-not-ascii": [M("pair", lambda s: sec(s, "Potential-Form")[1].append(["h\u00e9(r)", "r"])), M("eam", lambda s: s.append(["Table-Form:\u00e9", [["x", "0.0 1.0 2.0 3.0 4.0"], ["y", "0.0 1.0 4.0 9.0 16.0"]]]))],
+    "parameter-overflow": [M("pair", lambda s: setv(s, "Pair", "Al-Al", "as.constant 1e400")), M("pair", lambda s: setv(s, "Pair", "Al-Al", "as.constant " + "9" * 401)),
+                           M("eam", lambda s: setv(s, "EAM-Embed", "Al", "as.polynomial 0 -1e999"))],
+    "trans-second-multi-range": [M("pair", lambda s: setv(s, "Pair", "Fe-Al", "trans(as.lj 0.2 2.5, as.constant 1 >2 as.constant 3)"))],
+    "spline-endpoint-unevaluable": [M("pair", lambda s: setv(s, "Pair", "Cu-Cu", "spline(>-1 as.zbl 29 29 >=0 exp_spline >=1.4 as.buck 1000.0 0.3 32.0)")),
+                                    M("pair", lambda s: setv(s, "Pair", "Fe-Cu", "as.buck4 1000 0 32 1 1.5 2")),
+                                    M("pair", lambda s: setv(s, "Pair", "Cu-Cu", "spline(>-3 as.sqrt 1 >=-2 exp_spline >=1.4 as.zero)"))],
+    "species-not-finite": [M("eam", lambda s: setv(s, "Species", "Cu.atomic_mass", "nan")), M("eam", lambda s: setv(s, "Species", "Al.lattice_constant", "inf")), M("fs", lambda s: setv(s, "Species", "Cu.atomic_mass", "-inf"))],
+    "species-key-empty-part": [M("eam", lambda s: rename(s, "Species", "Cu.atomic_mass", ".atomic_mass")), M("eam", lambda s: rename(s, "Species", "Al.lattice_constant", "Al."))],
+    "formula-library-call-wrong-arity": [M("pair", lambda s: setv(s, "Potential-Form", "f(r,a)", "pymath.log(r, 2, 3) + a")), M("eam", lambda s: setv(s, "Potential-Form", "f(r,a)", "pymath.hypot(r) + a"))],
     "form-numeric-parameter": [M("pair", lambda s: rename(s, "Potential-Form", "f(r,a)", "f(r,1)"))],
     "form-name-clash": [M("pair", lambda s: sec(s, "Potential-Form")[1].append(["sin(r)", "r"])), M("pair", lambda s: sec(s, "Potential-Form")[1].append(["if(r)", "r"]))],
     "form-same-label-other-arity": [M("pair", lambda s: sec(s, "Potential-Form")[1].append(["f(r)", "r"]))],
